@@ -1087,8 +1087,9 @@ class Interp:
                 return SV(INT, x * y)
             if isinstance(op, ast.FloorDiv):
                 self.require(y != 0, 'ZeroDivisionError')
-                # python floor division: z3 div is euclidean for positive divisor
-                return SV(INT, z3.If(y > 0, x / y, -((-x) / (-y)) if False else z3.If(x % y == 0, x / y, (x / y))))
+                # Python floors; SMT-LIB div keeps the remainder non-negative: the two agree for a positive divisor and for an exact division, and differ by one
+                # for a negative divisor with a remainder (7 // -2 == -4, (div 7 (- 2)) == -3)
+                return SV(INT, z3.If(y > 0, x / y, z3.If(x % y == 0, x / y, x / y - 1)))
             if isinstance(op, ast.Mod):
                 self.require(y != 0, 'ZeroDivisionError')
                 return SV(INT, z3.If(y > 0, x % y, -((-x) % (-y))))
